@@ -68,6 +68,16 @@ exactly `likeMatchG eqv`: `_` is exactly one scalar value, `%` any sequence. -/
 theorem regex_like_denotes_like (eqv : Char → Char → Bool) (p s : List Char) :
     (regexLike p).isMatch eqv s = likeMatchG eqv (tokenise p) s := regexLike_isMatch eqv p s
 
+/-- the textual test `result.ends_with(".*")` at the end of `regex_like` is true exactly when the
+last translated item is the `.*` of an unescaped `%`: a literal `*` is always rendered `\*`, so
+the model's `regexTail` (which looks at the last *item*) mirrors the code (which looks at the
+last two *characters*). -/
+theorem regex_text_tail (pre : List Char) (hpre : pre = [] ∨ pre = ['^']) (items : List RxItem) :
+    ['.', '*'].isSuffixOf (renderBody pre items) = (items.getLast? == some RxItem.star) :=
+  render_endsWith_dotStar pre hpre items
+
+example : renderBody ['^'] (rxBody ['a', '\\', '*', '_', '%']) = ['^', 'a', '\\', '*', '.', '.', '*'] := by decide
+
 /-- **`like`**: whatever strategy `Predicate::like` selects for a pattern — equality, prefix,
 suffix, substring or regular expression, including all escape shapes (`\%`, `\_`, `\\`, `\x`,
 trailing `\`) — evaluating it on the UTF-8 bytes of the subject is LIKE on scalar values. -/
